@@ -6,6 +6,7 @@ package main
 
 import (
 	"crypto/sha256"
+	"crypto/sha512"
 	"encoding/hex"
 	"encoding/json"
 	"fmt"
@@ -48,10 +49,12 @@ type node struct {
 	Edges   []edge `json:"edges,omitempty"`
 	Subject string `json:"subject,omitempty"`
 	AType   string `json:"atype,omitempty"`
+	Alg     string `json:"alg,omitempty"` // digest algorithm the source names this object by ("" = sha256)
 }
 
 func (n *node) isMan() bool  { return n.Kind != "blob" }
-func (n *node) hexd() string { return strings.TrimPrefix(n.Dig, "sha256:") }
+func (n *node) hexd() string { return n.Dig[strings.IndexByte(n.Dig, ':')+1:] }
+func (n *node) alg() string  { return n.Dig[:strings.IndexByte(n.Dig, ':')] }
 
 // shape is one entry of the catalogue.
 type shape struct {
@@ -74,6 +77,18 @@ type dtag struct {
 func digestOf(b []byte) string {
 	s := sha256.Sum256(b)
 	return "sha256:" + hex.EncodeToString(s[:])
+}
+
+func digestOf512(b []byte) string {
+	s := sha512.Sum512(b)
+	return "sha512:" + hex.EncodeToString(s[:])
+}
+
+// use512 makes the source name n by its sha512 digest (call before n is referenced).
+func use512(n *node) *node {
+	n.Alg = "sha512"
+	n.Dig = digestOf512(n.Raw)
+	return n
 }
 
 func (s *shape) add(n *node) *node {
@@ -116,6 +131,7 @@ type dopt struct {
 	urls   []string
 	inline bool
 	atype  string
+	bad    string // inline data that does not belong to the descriptor: "bytes" (same length, other bytes) | "len" (truncated)
 }
 
 func desc(n *node, o dopt) map[string]any {
@@ -133,6 +149,12 @@ func desc(n *node, o dopt) map[string]any {
 	}
 	if o.inline {
 		d["data"] = n.Raw // encoding/json renders []byte as base64, which is what the spec asks for
+	}
+	switch o.bad {
+	case "bytes":
+		d["data"] = []byte(strings.Repeat("x", len(n.Raw)))
+	case "len":
+		d["data"] = n.Raw[:len(n.Raw)-3]
 	}
 	if o.atype != "" {
 		d["artifactType"] = o.atype
@@ -239,7 +261,9 @@ func (s *shape) addDTag(of, to *node, suffix string) {
 	s.dtags = append(s.dtags, dtag{Sym: "dt:" + to.Name, Of: of.Name, To: to.Name, Suffix: suffix})
 }
 
-func (d dtag) tag(s *shape) string { return "sha256-" + s.Nodes[d.Of].hexd() + d.Suffix }
+func (d dtag) tag(s *shape) string {
+	return s.Nodes[d.Of].alg() + "-" + s.Nodes[d.Of].hexd() + d.Suffix
+}
 
 // fallbackIndex is the client managed referrers index stored under the tag sha256-<hex> when the
 // registry has no referrers API.
@@ -272,7 +296,7 @@ func (s *shape) referrers(n string) []*node {
 }
 
 var shapeNames = []string{"img", "dup", "idx2", "nested", "art", "artidx", "bentry", "docker", "schema1",
-	"ext", "empty", "inline", "dtag", "loop", "diamond", "diamond2", "artshare", "big", "xref"}
+	"ext", "empty", "inline", "dtag", "loop", "diamond", "diamond2", "artshare", "sha512", "inlinebad", "dupentry", "big", "xref"}
 
 func buildShape(name string) *shape {
 	s := newShape(name)
@@ -372,6 +396,29 @@ func buildShape(name string) *shape {
 		a := s.image("A", false, lref{e, dopt{mt: mtOCIEmpty}}, []lref{{la, dopt{mt: atSBOM}}}, nil, atSBOM)
 		s.image("R", false, lref{e, dopt{mt: mtOCIEmpty}}, []lref{{lr, dopt{mt: atSig}}}, a, atSig)
 		s.Root = "A"
+	case "sha512": // objects named by sha512 digests: blobs, a child manifest (with a referrer), shared with sha256-named ones
+		l5, l1 := use512(s.blob("L5", 400)), s.blob("L1", 90)
+		c5, c2 := use512(s.config("C5", "amd64")), s.config("C2", "arm64")
+		m5 := use512(s.image("M5", false, L(c5), []lref{L(l5), L(l1)}, nil, ""))
+		m2 := s.image("M2", false, L(c2), []lref{L(l5)}, nil, "")
+		// a referrer of the sha512-named image (its fall-back tag is sha512-<first 64 hex digits>; a digest tag
+		// sha512-<128 hex>.sig would exceed the 128 characters a tag may have)
+		e, b5 := s.rawBlob("E", []byte("{}")), use512(s.blob("B5", 60))
+		s.image("R5", false, lref{e, dopt{mt: mtOCIEmpty}}, []lref{{b5, dopt{mt: atSig}}}, m5, atSig)
+		s.index("I", false, []lref{{m5, dopt{plat: "linux/amd64"}}, {m2, dopt{plat: "linux/arm64"}}}, nil, "")
+		s.Root = "I"
+	case "inlinebad": // descriptors whose inline data does NOT belong to them (other bytes / truncated): must be ignored
+		c, l1 := s.config("C", "amd64"), s.blob("L1", 180)
+		m := s.image("M", false, lref{c, dopt{bad: "bytes"}}, []lref{L(l1)}, nil, "")
+		s.index("I", false, []lref{{m, dopt{plat: "linux/amd64", bad: "len"}}}, nil, "")
+		s.Root = "I"
+	case "dupentry": // the same image listed twice in one index (two platforms), next to another one sharing its layer
+		c, l := s.config("C", "amd64"), s.blob("L", 210)
+		m := s.image("M", false, L(c), []lref{L(l)}, nil, "")
+		c2 := s.config("C2", "arm64")
+		m2 := s.image("M2", false, L(c2), []lref{L(l)}, nil, "")
+		s.index("I", false, []lref{{m, dopt{plat: "linux/amd64"}}, {m, dopt{plat: "linux/386"}}, {m2, dopt{plat: "linux/arm64"}}}, nil, "")
+		s.Root = "I"
 	case "diamond": // one platform image under two different parent indexes: T -> IA -> {SH, OA}, T -> IB -> {SH, OB}
 		l, la, lb := s.blob("L", 140), s.blob("LA", 90), s.blob("LB", 80)
 		cs, ca, cb := s.config("CS", "amd64"), s.config("CA", "arm64"), s.config("CB", "arm")
